@@ -274,6 +274,12 @@ func calleeLabel(c *ssa.CallCommon) string {
 // allInstrs iterates over the instructions of fn.
 func allInstrs(fn *ssa.Function, f func(in ssa.Instruction)) {
 	for _, b := range fn.Blocks {
+		// the recover block of a function with a defer is only entered after a recovered panic;
+		// nothing in the repository recovers (NO-RECOVER), so it is dead code and its synthetic
+		// return is not a way out of the function
+		if b == fn.Recover {
+			continue
+		}
 		for _, in := range b.Instrs {
 			f(in)
 		}
